@@ -395,7 +395,7 @@ def check(prog, rep):
         rep.ob("R12.3", "routing", True, "both the auto router and solve_lp consult is_linear (degree-based; C04 decides what the verdict is made of, C06/C08 what solve_lp does with it)", loc=lp.loc, detail="lp-gated-by-degree")
     else:
         who = "Problem._is_linear_problem" if not consults(lin) else "solve_lp"
-        rep.ob("R12.3", "routing", False, f"the LP path is not gated by the degree-based linearity test: {who} does not reach analysis.is_linear", loc=lp.loc, detail="lp-gated-by-degree")
+        rep.undecided(f"R12.3 routing: no call path from {who} to analysis.is_linear was found (helpers of the same module, two levels); whether the LP path is still gated by the degree-based linearity test is not decided")
 
     # ------------------------------------------------------------------ R12.4
     from .c01 import evaluator_builders
